@@ -10,6 +10,7 @@ import Driver.C17
 import Driver.C04
 import Driver.C18
 import Driver.C20
+import Driver.C12
 
 def main (args : List String) : IO UInt32 := do
   match args with
@@ -25,4 +26,5 @@ def main (args : List String) : IO UInt32 := do
   | "C04" :: rest => DriverC04.main rest; return 0
   | "C18" :: rest => DriverC18.main rest; return 0
   | "C20" :: rest => DriverC20.main rest; return 0
+  | "C12" :: rest => DriverC12.main rest; return 0
   | _ => IO.eprintln "usage: gvdriver <Cxx> [mode] < history"; return 2
